@@ -145,7 +145,7 @@ func (e *Expr) render(hook func(*Expr) (string, bool)) string {
 		if s, ok := hook(e); ok {
 			return s
 		}
-		if e.str != "" && e.ID > 0 && e.Op != OpExtract && e.Op != OpAlloc && e.Op != OpFresh && e.Op != OpNext {
+		if e.str != "" && e.ID > 0 && e.Op != OpExtract && e.Op != OpAlloc && e.Op != OpFresh && e.Op != OpNext && e.Op != OpRange && e.Op != OpMakeMap && e.Op != OpTypeAssert && e.Op != OpSel {
 			// iteration-tagged call: keep the primes
 			n := strings.Count(e.str[len(strings.TrimRight(e.str, "'")):], "'")
 			c := *e
@@ -284,7 +284,7 @@ func (e *Expr) render(hook func(*Expr) (string, bool)) string {
 		}
 		return "closure " + fnName(e.Fn) + "[" + strings.Join(as, ", ") + "]"
 	case OpRange:
-		return "range(" + S(e.Args[0]) + ")"
+		return fmt.Sprintf("range#%d(%s)", e.ID, S(e.Args[0]))
 	case OpNext:
 		return fmt.Sprintf("next(%s)@%d", S(e.Args[0]), e.ID)
 	case OpTypeAssert:
